@@ -1,25 +1,67 @@
-CLAIM = "wip"
-ASSUMPTIONS = []
+CLAIM = ("The output of src/list.c (l, lv, v, vv) equals, token for token, the rendering of an independently written reference "
+         "(harness/C19/ref_list.h: written from the Unix-LHA column description and the recorded listings, validated natively against all "
+         "720 listings under /repo/test/output by harness/C19/validate/run.sh). Token stream = every literal / %s / %c / padding / hex-digit "
+         "byte, and for every decimal or %f conversion one token (kind, justification, zero flag, width, precision, value passed); decimal and "
+         "floating-point rendering is left to libc. Decomposition: col.* compare every real column handler and footer with the reference "
+         "field for a fully symbolic header (all sizes 0..2^32-1, every OS type, Unix and OS-9 permission words, uid/gid 0..65535, stamps "
+         "0..2^32-1 against a symbolic `now` with an arbitrary valid struct tm from localtime, header levels 0..255, names with arbitrary "
+         "bytes); head.* compare heading and separator lines; comp.* compare the ASSEMBLY done by the real list_file_basic/verbose -> "
+         "list_file_contents -> print_columns / print_footers (order of rows and fields, blanks, line ends, blank fill, count, 32-bit totals, "
+         "quiet levels, 0..3 members) with the handlers replaced by field markers on both sides; e2e.* cross-check the decomposition on the "
+         "whole real code for two members; filter.sel + glob.match cover member selection by wildcard arguments (src/filter.c).")
+ASSUMPTIONS = [
+    "libc renders %d/%i/%u/%lu/%5.1f conversions correctly (only the conversion specification and the value passed are compared); TZ database outside",
+    "localtime() returns an arbitrary VALID struct tm (mon 0..11, mday 1..31, hour 0..23, min 0..59, sec 0..60, year -1900..1000000) and never NULL; time() returns an arbitrary value < 2^40; fstat succeeds",
+    "'six months' = 180 days = 15552000 s, strict (stamp + 15552000 > now shows the time of day); footer totals are 32-bit quantities (sums modulo 2^32), as the property's quantifier says ('32-bit sizes and totals')",
+    "bytes of names / link targets / method outside 0x20..0x7E are rendered as '?' (property C18)",
+    "names of <= 2-3 bytes; uid/gid <= 65535 and sizes < 2^32 as in the property's quantifier",
+]
 LIST_UNITS = ["src/list.c", "src/safe.c"]
-OM = {"out_vformat.4": 90, "out_vformat.0": 8, "out_vformat.1": 8, "out_vformat.2": 8, "out_vformat.3": 8, "out_strlen.0": 41, "out_pad.0": 12, "out_str.0": 42, "out_str.1": 41, "out_hex.0": 17, "out_hex.1": 24, "out_hex.2": 17, "lha_arch_vasprintf.0": 65}
+OM = {"out_vformat.4": 90, "out_vformat.0": 8, "out_vformat.1": 8, "out_vformat.2": 8, "out_vformat.3": 8, "out_strlen.0": 41, "out_pad.0": 12, "out_str.0": 42,
+      "out_str.1": 41, "out_hex.0": 17, "out_hex.1": 24, "out_hex.2": 17, "lha_arch_vasprintf.0": 65}
 LISTL = {"sym_header_fill.0": 4, "sym_header_fill.1": 6, "unix_permissions_print.0": 10, "os9_permissions_print.0": 8, "safe_output.0": 12,
          "last_column.0": 11, "print_list_headings.0": 22, "print_list_headings.1": 11, "print_list_separators.0": 22, "print_list_separators.1": 11,
          "print_columns.0": 11, "print_footers.0": 11, "print_footers.1": 11, "print_footers.2": 12, "print_footers.3": 11, "list_file_contents.0": 4,
          "ref_text.0": 90, "ref_blanks.0": 20, "ref_shown.0": 6, "ref_perm.0": 11, "ref_perm.1": 11, "ref_method_crc.0": 6}
 def U(**kw):
     d = dict(OM); d.update(LISTL); d.update(kw); return d
-COLS = [(1, "perm"), (2, "owner"), (3, "sizes"), (4, "ratio"), (5, "method"), (6, "stamp"), (7, "fullstamp"), (8, "name"), (9, "wname"), (10, "level"), (11, "totals"), (12, "footstamp")]
+
+S_OUT = "printf/fprintf/...: recording output model (harness/common/out_model.h); C18 assertion switched off"
+S_VAS = "lha_arch_vasprintf: the same format interpreter rendering into a static buffer (%s %c %x)"
+S_TIME = "localtime: ONE arbitrary valid struct tm (its argument is recorded and compared with the stamp the reference asks for); time: arbitrary; fstat: arbitrary mtime"
+S_REF = "reference renderer harness/C19/ref_list.h (independent; natively validated against /repo/test/output)"
+
+COLS = [
+    (1, "perm", "permission_column_print: OS-9 permission string, Unix permission string (d / l / -), or OS name padded to 10; extra_flags, perms, OS type, method, link target arbitrary"),
+    (2, "owner", "unix_uid_gid_column_print: %5i/%-5i or 11 blanks"),
+    (3, "sizes", "packed_column_print, size_column_print: %7lu of the header's sizes"),
+    (4, "ratio", "ratio_column_print: ****** for -lhd-, else the single-precision value packed*100/original (100.0 when original is 0) passed to %5.1f, then '%'"),
+    (5, "method", "method_crc_column_print: 5 method bytes (0x00..0xFF, shown like names, blank-filled) + blank + CRC as four hex digits"),
+    (6, "stamp", "timestamp_column_print: blank / 'Mon dd hh:mm' / 'Mon dd  yyyy' by the six-month rule against a symbolic now; tm fields appear in the tokens"),
+    (7, "fullstamp", "full_timestamp_column_print: blank / yyyy-mm-dd hh:mm:ss"),
+    (8, "name", "name_column_print: path, file name, ' -> ' target; all 8 presence patterns, one compared segment each"),
+    (9, "wname", "whole_line_name_column_print: path, file name, '|' target, newline; all 8 presence patterns"),
+    (10, "level", "header_level_column_print: [n]"),
+    (11, "totals", "permission/uid_gid/packed/size/ratio column footers: ' Total    ', count with file/files, totals, ratio of totals or ******"),
+    (12, "footstamp", "timestamp_column_footer and full_timestamp_column_footer for an arbitrary archive stamp"),
+]
 HARNESSES = [
-    dict(name="col."+n, src="C19/cols.c", defines=["WHICH=%d" % w, "SL=%d" % (2 if n in ("name", "wname") else 3), "OUT_TOKENS=%d" % (16 if n in ("name", "wname") else 32), "OUT_MAXSTR=%d" % (12 if n in ("perm", "method") else 8), "VAS_MAX=16"] + (["SYM_METHOD_ANY=1"] if n == "method" else []), unwindset=U(**{"c19_compare.0": 33, "harness.0": 9, "lha_arch_vasprintf.0": 17}), units=LIST_UNITS, timeout=180, mem_gb=3,
-         backend=("cvc5" if n in ("ratio", "totals") else "default"))
-    for w, n in COLS
+    dict(name="col." + n, src="C19/cols.c",
+         defines=["WHICH=%d" % w, "SL=%d" % (2 if n in ("name", "wname") else 3), "OUT_TOKENS=%d" % (16 if n in ("name", "wname") else 32),
+                  "OUT_MAXSTR=%d" % (12 if n in ("perm", "method") else 8), "VAS_MAX=16"] + (["SYM_METHOD_ANY=1"] if n == "method" else []),
+         unwindset=U(**{"c19_compare.0": 33, "harness.0": 9, "lha_arch_vasprintf.0": 17}), units=LIST_UNITS, timeout=(400 if n in ("name", "wname") else 240), mem_gb=3,
+         backend=("cvc5" if n in ("ratio", "totals") else "default"),
+         bounds="fully symbolic header (strings <= %d bytes), symbolic struct tm and now, arbitrary totals" % (2 if n in ("name", "wname") else 3),
+         stubs=[S_OUT, S_VAS, S_TIME, S_REF], claim=cl + " - token stream equals the reference field")
+    for w, n, cl in COLS
 ]
 
-
 CMDS = ["l", "lv", "v", "vv"]
-RU = {"c19_compare.0": 97, "lha_arch_vasprintf.0": 17}
 HARNESSES += [
-    dict(name="head."+n, src="C19/heads.c", defines=["WHICH=2", "CMD=%d" % c, "SL=2", "OUT_TOKENS=96", "OUT_MAXSTR=12", "VAS_MAX=16"], unwindset=U(**RU), units=LIST_UNITS, timeout=180, mem_gb=3)
+    dict(name="head." + n, src="C19/heads.c", defines=["WHICH=2", "CMD=%d" % c, "SL=2", "OUT_TOKENS=96", "OUT_MAXSTR=12", "VAS_MAX=16"],
+         unwindset=U(**{"c19_compare.0": 97, "lha_arch_vasprintf.0": 17}), units=LIST_UNITS, timeout=240, mem_gb=3,
+         bounds="column set of lha %s" % n, stubs=[S_OUT, S_REF],
+         claim="print_list_headings and print_list_separators write the heading and separator line of the Unix-LHA layout byte for byte")
     for c, n in enumerate(CMDS)
 ]
 STUBBED = ["permission_column_print", "unix_uid_gid_column_print", "packed_column_print", "size_column_print", "ratio_column_print", "method_crc_column_print",
@@ -27,20 +69,36 @@ STUBBED = ["permission_column_print", "unix_uid_gid_column_print", "packed_colum
            "permission_column_footer", "unix_uid_gid_column_footer", "packed_column_footer", "size_column_footer", "ratio_column_footer",
            "timestamp_column_footer", "full_timestamp_column_footer", "print_list_headings", "print_list_separators"]
 HARNESSES += [
-    dict(name="comp."+n, src="C19/comp.c", defines=["CMD=%d" % c, "NHDR=3", "SL=1", "OUT_TOKENS=128", "OUT_MAXSTR=12", "VAS_MAX=16"], rename_defs={"src/list.c": STUBBED},
-         unwindset=U(**{"c19_compare.0": 129, "harness.0": 4, "harness.1": 5, "harness.2": 4, "ref_listing.0": 4, "list_file_contents.0": 5}), units=LIST_UNITS, timeout=300, mem_gb=4, object_bits=14, flags=["--max-field-sensitivity-array-size", "128"])
+    dict(name="comp." + n, src="C19/comp.c", defines=["CMD=%d" % c, "NHDR=3", "SL=1", "OUT_TOKENS=128", "OUT_MAXSTR=12", "VAS_MAX=16"], rename_defs={"src/list.c": STUBBED},
+         unwindset=U(**{"c19_compare.0": 129, "harness.0": 4, "harness.1": 5, "harness.2": 4, "ref_listing.0": 4, "list_file_contents.0": 5}), units=LIST_UNITS,
+         timeout=400, mem_gb=4, object_bits=14, flags=["--max-field-sensitivity-array-size", "128"],
+         bounds="lha %s: quiet 0, 1, 2 x 0..3 members with arbitrary 32-bit packed/original sizes, arbitrary archive stamp" % n,
+         stubs=[S_OUT, S_REF + " in marker mode", "the 11 column handlers, 7 column footers, print_list_headings, print_list_separators: ONE marker token each (field id + member index / footer value); "
+                "their real output is compared by col.* and head.*", "lha_filter_next_file: serves the members in order", "fstat: arbitrary mtime"],
+         claim="list_file_basic/verbose, list_file_contents, print_columns, print_footers assemble rows, separators, line ends, blank fill, file count and 32-bit totals as the reference does; "
+               "the right column set is used; quiet >= 2 prints rows only")
     for c, n in enumerate(CMDS)
 ]
 HARNESSES += [
-    dict(name="e2e."+n+v, src="C19/e2e.c", defines=["CMD=%d" % c, "E2E_QUIET=2", "NHDR=2", "SL=1", "OUT_TOKENS=160", "OUT_MAXSTR=12", "VAS_MAX=16"] + (["E2E_OS9=1"] if v else []),
-         unwindset=U(**{"c19_compare.0": 161, "ref_listing.0": 3, "e2e_method.0": 7}), units=LIST_UNITS, timeout=400, mem_gb=4, object_bits=14,
-         flags=["--max-field-sensitivity-array-size", "160"])
+    dict(name="e2e." + n + v, src="C19/e2e.c", defines=["CMD=%d" % c, "E2E_QUIET=2", "NHDR=2", "SL=1", "OUT_TOKENS=160", "OUT_MAXSTR=12", "VAS_MAX=16"] + (["E2E_OS9=1"] if v else []),
+         unwindset=U(**{"c19_compare.0": 161, "ref_listing.0": 3, "e2e_method.0": 7}), units=LIST_UNITS, timeout=300, mem_gb=4, object_bits=14,
+         flags=["--max-field-sensitivity-array-size", "160"],
+         bounds="lha %sq2, two members with concrete names/sizes/CRCs/stamps/now/month (so that token positions are concrete); permission bits, uid, gid, header levels, OS-9 bits, "
+                "mday/hour/min/sec/year arbitrary" % n,
+         stubs=[S_OUT, S_VAS, S_TIME, S_REF, "lha_filter_next_file: serves the two members"],
+         claim="nothing stubbed inside src/list.c / src/safe.c: the rows of the real command equal the reference rendering")
     for c, n in enumerate(CMDS) for v in (["", ".os9"] if c in (0, 3) else [""])
 ] + [
-    dict(name="e2e."+n+".full", src="C19/e2e.c", defines=["CMD=%d" % c, "E2E_QUIET=0", "NHDR=2", "SL=1", "OUT_TOKENS=512", "OUT_MAXSTR=12", "VAS_MAX=16"],
+    dict(name="e2e." + n + ".full", src="C19/e2e.c", defines=["CMD=%d" % c, "E2E_QUIET=0", "NHDR=2", "SL=1", "OUT_TOKENS=512", "OUT_MAXSTR=12", "VAS_MAX=16"],
          unwindset=U(**{"c19_compare.0": 513, "ref_listing.0": 3, "e2e_method.0": 7}), units=LIST_UNITS, timeout=1800, tier="thorough", mem_gb=6, object_bits=14,
-         flags=["--max-field-sensitivity-array-size", "512"])
+         flags=["--max-field-sensitivity-array-size", "512"],
+         bounds="as e2e.%s at quiet 0: headings, separators, two rows, footer" % n, stubs=[S_OUT, S_VAS, S_TIME, S_REF], claim="the complete real listing equals the reference rendering")
     for c, n in enumerate(CMDS)
+] + [
+    dict(name="col.%s.s3" % n, src="C19/cols.c", defines=["WHICH=%d" % w, "SL=3", "OUT_TOKENS=16", "OUT_MAXSTR=8", "VAS_MAX=16"],
+         unwindset=U(**{"c19_compare.0": 33, "harness.0": 9, "lha_arch_vasprintf.0": 17}), units=LIST_UNITS, timeout=1800, tier="thorough", mem_gb=4,
+         bounds="as col.%s with strings <= 3 bytes" % n, stubs=[S_OUT, S_VAS, S_REF], claim="as col.%s" % n)
+    for w, n in [(8, "name"), (9, "wname")]
 ]
 FL = {"match_glob.0": 5, "match_glob.1": 5, "match_glob": 5, "matches_filter.0": 3, "lha_filter_next_file.0": 4, "strlen.0": 5, "strcat.0": 5, "strcat.1": 5,
       "ref_glob.0": 5, "ref_glob.1": 5, "ref_glob.2": 5, "ref_glob.3": 5, "ref_glob.4": 5, "ref_glob.5": 5, "ref_glob.6": 5, "ref_len.0": 6,
@@ -49,7 +107,8 @@ HARNESSES += [
     dict(name="filter.sel", src="C19/filter.c", defines=["WHICH=1", "NM=2", "PATL=3", "NAML=3"], units=["src/filter.c: lha_filter_init, lha_filter_next_file, matches_filter"], timeout=300, mem_gb=4,
          rename_defs={"src/filter.c": ["match_glob"]}, unwindset=FL,
          bounds="2 members (path absent or 1 arbitrary byte, file name <= 2 arbitrary bytes), 0..2 wildcard arguments of <= 3 arbitrary bytes each",
-         stubs=["lha_reader_next_file: serves the members in order", "malloc/free: one 8-byte buffer", "match_glob: verdict of the reference matcher; checks it is given (argument, joined path+filename); justified by glob.match"],
+         stubs=["lha_reader_next_file: serves the members in order", "malloc/free: one 8-byte buffer",
+                "match_glob: verdict of the reference matcher; checks it is given (argument, joined path+filename); justified by glob.match"],
          claim="lha_filter_next_file returns exactly the members whose path+filename matches a wildcard argument, in archive order; all members when there are no arguments"),
     dict(name="glob.match", src="C19/filter.c", defines=["WHICH=2", "NM=1", "PATL=3", "NAML=2"], units=["src/filter.c: match_glob"], timeout=300, mem_gb=4, unwindset=FL,
          bounds="every pattern of <= 3 bytes against every name of <= 3 bytes (bytes 0x01..0xFF)",
